@@ -21,7 +21,7 @@ RULE = (
     "unrequested label}. distinct = distinct SHA-1 of canonical case JSON. Exact comparison on dyadic "
     "alphabets; var/std rtol=atol=1e-12 (float32: 1e-5); float32 mean rtol 1e-6."
 )
-BUDGET = {"quick": 300, "thorough": 4000}
+BUDGET = {"quick": 600, "thorough": 4000}
 ASSUMPTIONS = [
     "NumPy's own reductions are the oracle",
     "values restricted to dyadic alphabets so that summation order cannot perturb results",
